@@ -225,7 +225,7 @@ class ParameterList(object):
         elif key == "restarts.increase_npt":
             type_str, nonetype_ok, lower, upper = 'bool', False, None, None
         elif key == "restarts.increase_npt_amt":
-            type_str, nonetype_ok, lower, upper = 'int', False, 0, None
+            type_str, nonetype_ok, lower, upper = 'int', False, 1, None  # 0 points to add fails an assertion in the direction generator
         elif key == "restarts.hard.increase_ndirs_initial_amt":
             type_str, nonetype_ok, lower, upper = 'int', False, 0, None
         elif key == "restarts.max_npt":
